@@ -568,6 +568,116 @@ def _match_b(exp, status, got, consumed, injected, sent, env_s, whole=False):
     return None if (status == "ok" and got == sent[:limit]) else "input-stream:declared-length-wrong"
 
 
+# ------------------------------------------------------------------ part H: access histories on one Request
+
+ACCESSES = ["get_data", "get_data-nocache", "get_data-text", "data", "stream.read", "get_data-parse"]
+
+
+def whole_body_expectation(cl, term, mcl, sent):
+    """What ONE whole-body access must do: set of ('data', bytes) | 'RETL' | 'CD' (docstring table of
+    get_input_stream, truthful or lying declared length)."""
+    declared = None if cl is None else int(cl)
+    exp = expected_b(declared, term, mcl, True, sent)
+    if exp[0] == "RETL-early":
+        return {"RETL"}
+    if exp[0] == "empty":
+        return {("data", b"")}
+    _k, limit, is_max = exp
+    if limit is None:
+        return {("data", sent)}
+    if is_max:
+        if len(sent) > limit:
+            return {"RETL"}
+        if len(sent) == limit:
+            return {"RETL", ("data", sent)}
+        return {("data", sent)}
+    if len(sent) < limit:
+        return {"CD"}
+    return {("data", sent[:limit])}
+
+
+def run_history(cfgh):
+    """cfgh = (cl, term, mcl, n, accesses).  One Request, the accesses in order, exceptions swallowed.
+    Returns list of outcomes: ('data', bytes) | 'RETL' | 'CD' | 'EXC:<type>'."""
+    cl, term, mcl, n, accesses = cfgh
+    sent = DATA[:n]
+    environ = {"wsgi.input": EnvRI(sent, E4.Chooser(())), "REQUEST_METHOD": "POST", "CONTENT_TYPE": "text/plain"}
+    if cl is not None:
+        environ["CONTENT_LENGTH"] = cl
+    if term:
+        environ["wsgi.input_terminated"] = True
+
+    class R(Request):
+        max_content_length = mcl
+
+    rq = R(environ)
+    out = []
+    for a in accesses:
+        E4.arm(CPU_GUARD)
+        try:
+            if a == "get_data":
+                r = rq.get_data()
+            elif a == "get_data-nocache":
+                r = rq.get_data(cache=False)
+            elif a == "get_data-text":
+                r = rq.get_data(as_text=True).encode("latin-1", "replace")
+            elif a == "get_data-parse":
+                r = rq.get_data(parse_form_data=True)
+            elif a == "data":
+                r = rq.data
+            else:
+                r = rq.stream.read()
+            out.append(("data", bytes(r)))
+        except ClientDisconnected:
+            out.append("CD")
+        except RequestEntityTooLarge:
+            out.append("RETL")
+        except Hang:
+            out.append("EXC:Hang")
+        except Exception as e:  # noqa: BLE001
+            out.append("EXC:" + type(e).__name__)
+        finally:
+            E4.disarm()
+    return out
+
+
+def judge_history(cfgh, outs):
+    """-> signature or None."""
+    cl, term, mcl, n, accesses = cfgh
+    sent = DATA[:n]
+    exp = whole_body_expectation(cl, term, mcl, sent)
+    datas = {e[1] for e in exp if isinstance(e, tuple)}
+    refused = False
+    for i, (a, o) in enumerate(zip(accesses, outs)):
+        if isinstance(o, str) and o.startswith("EXC"):
+            return "history:unrelated-exception"
+        if o in ("RETL", "CD"):
+            if o not in exp:
+                return "history:" + o + "-not-justified"
+            refused = refused or o == "RETL"
+            continue
+        d = o[1]
+        if d == b"":
+            if i == 0 and a != "stream.read" and not datas:
+                return "history:first-access-returned-nothing-instead-of-" + sorted(exp)[0]
+            continue                      # empty because consumed (or an empty body)
+        if refused or exp == {"RETL"}:
+            # the body is over the configured maximum: only the stream's own FIRST read may hand out the first
+            # max_content_length bytes (stream contract, see module docstring) - never any access after a refusal
+            if a == "stream.read" and i == 0 and sent.startswith(d) and len(d) <= (mcl or 0):
+                continue
+            return "history:body-prefix-returned-for-body-over-max_content_length"
+        if a == "stream.read":
+            if not sent.startswith(d):
+                return "history:stream-data-not-a-prefix"
+            continue
+        if d not in datas:
+            return "history:access-returned-something-else-than-the-body"
+        if i == 0 and exp and ("data", d) not in exp:
+            return "history:first-access-differs-from-single-access"
+    return None
+
+
 # ------------------------------------------------------------------ spaces / units
 
 def tier_params(tier):
@@ -607,6 +717,10 @@ def units(tier):
     for cl in CL_VALUES:
         for te in TE_VALUES:
             us.append(("B", cl, te, tuple(P["nb"])))
+    for cl in (None, "2", "3", "5"):
+        for term in (False, True):
+            for mcl in (None, 3, 5):
+                us.append(("H", cl, term, mcl))
     return us
 
 
@@ -658,6 +772,23 @@ def run_unit(unit, R, tier):
                          "outcome": list(outcome), "underlying_calls": list(summary[2]),
                          "consumed": summary[1]},
                     )
+    elif unit[0] == "H":
+        _k, cl, term, mcl = unit
+        for n in (0, 3, 5):
+            for accesses in itertools.chain.from_iterable(itertools.product(ACCESSES, repeat=k) for k in (1, 2, 3)):
+                cfgh = (cl, term, mcl, n, accesses)
+                R.ev()
+                R.count("executions")
+                R.count("histories")
+                outs = run_history(cfgh)
+                for o in outs:
+                    R.use("H:" + (o if isinstance(o, str) else "data"))
+                if len(accesses) > 1:
+                    R.nontrivial(("H", cfgh))
+                R.outcome(("H", tuple(o if isinstance(o, str) else "data" for o in outs)))
+                sig = judge_history(cfgh, outs)
+                if sig:
+                    R.violation("H:" + sig, {"kind": "H", "cfg": cfgh, "sig": sig, "outcomes": outs})
     else:
         _k, cl, te, nb = unit
         for term in (False, True):
@@ -695,7 +826,7 @@ def wrap_kind(wrap):
 def finalize(R, tier):
     need = {"wrap:" + w for w in WRAPS} | {"wrap:hooks", "wrap:bare!V", "wrap:br2!V", "env:valueerror"} | {"ri:True", "ri:False", "max:True", "max:False",
             "status:ok", "status:CD", "status:RETL", "env:early-eof", "env:oserror", "env:short-read",
-            "B:ok", "B:CD", "B:RETL", "B:RETL-early"}
+            "B:ok", "B:CD", "B:RETL", "B:RETL-early", "H:data", "H:RETL", "H:CD"}
     need |= {"op-ok:" + o[0] for o in OPS_FULL} | {"op-raised:" + o[0] for o in OPS_FULL}
     missing = need - R.used
     if missing:
@@ -729,6 +860,16 @@ def replay(rec):
                 f"outcome={list(summary[0])}\nconsumed from underlying={summary[1]}\n"
                 f"violations={[(s, k) for s, k in viol]}")
         return any(s == rec["sig"] for s, _ in viol), text
+    if rec.get("kind") == "H":
+        cl, term, mcl, n, accesses = rec["cfg"]
+        cfgh = (cl, term, mcl, n, tuple(accesses))
+        outs = run_history(cfgh)
+        sig = judge_history(cfgh, outs)
+        text = (f"one Request: CONTENT_LENGTH={cl!r} input_terminated={term} max_content_length={mcl} body sent="
+                f"{DATA[:n]!r}\naccesses (exceptions swallowed) = {list(accesses)}\noutcomes = {outs}\n"
+                f"a single whole-body access must give {sorted(map(str, whole_body_expectation(cl, term, mcl, DATA[:n])))}\n"
+                f"violation = {sig}")
+        return sig == rec["sig"], text
     if rec.get("kind") == "B":
         cfgb = tuple(rec["cfg"])
         ch = E4.Chooser(tuple(rec["choices"]))
